@@ -38,29 +38,29 @@ Proof. apply map_length. Qed.
 
 Lemma dot_axpy r a d x : length d = length x -> dot r (axpy a d x) == dot r x + a * dot r d.
 Proof.
-  revert d x. induction r as [|u r IH]; intros d x H; cbn; [ring|].
-  destruct d as [|e d], x as [|y x]; cbn in *; try discriminate; [ring|].
-  rewrite IH by lia. ring.
+  revert d x. induction r as [|u r IH]; intros d x H; cbn [dot]; [ring|].
+  destruct d as [|e d], x as [|y x]; cbn [dot axpy length] in *; try discriminate; [ring|].
+  rewrite !Qred_correct. rewrite IH by lia. ring.
 Qed.
 
 Lemma dot_vsub r a b : length a = length b -> dot r (vsub a b) == dot r a - dot r b.
 Proof.
-  revert a b. induction r as [|u r IH]; intros a b H; cbn; [ring|].
-  destruct a as [|e a], b as [|y b]; cbn in *; try discriminate; [ring|].
-  rewrite IH by lia. ring.
+  revert a b. induction r as [|u r IH]; intros a b H; cbn [dot]; [ring|].
+  destruct a as [|e a], b as [|y b]; cbn [dot vsub length] in *; try discriminate; [ring|].
+  rewrite !Qred_correct. rewrite IH by lia. ring.
 Qed.
 
 Lemma dot_vadd r a b : length a = length b -> dot r (vadd a b) == dot r a + dot r b.
 Proof.
-  revert a b. induction r as [|u r IH]; intros a b H; cbn; [ring|].
-  destruct a as [|e a], b as [|y b]; cbn in *; try discriminate; [ring|].
-  rewrite IH by lia. ring.
+  revert a b. induction r as [|u r IH]; intros a b H; cbn [dot]; [ring|].
+  destruct a as [|e a], b as [|y b]; cbn [dot vadd length] in *; try discriminate; [ring|].
+  rewrite !Qred_correct. rewrite IH by lia. ring.
 Qed.
 
 Lemma dot_vscale r a x : dot r (vscale a x) == a * dot r x.
 Proof.
-  unfold vscale. revert x. induction r as [|u r IH]; intros x; cbn; [ring|].
-  destruct x as [|y x]; cbn; [ring|]. rewrite IH. ring.
+  unfold vscale. revert x. induction r as [|u r IH]; intros x; cbn [dot map]; [ring|].
+  destruct x as [|y x]; cbn [dot map]; [ring|]. rewrite !Qred_correct. rewrite IH. ring.
 Qed.
 
 (* A x = b, row by row *)
